@@ -21,10 +21,8 @@ package dns
 //@   exit strict:   ret0 ==> nameHash != ownerHash
 //@   exit interval: callres("IsSubDomain") ==> ret0 == ((ownerHash == nextHash) ? (nameHash != ownerHash) : (strlt(nextHash, ownerHash) ? (strlt(ownerHash, nameHash) || strlt(nameHash, nextHash)) : (strlt(ownerHash, nameHash) && strlt(nameHash, nextHash))))
 
-
 //@ func (*NSEC3).Match [C17]
 //@   exit match: ret0 == (callres("IsSubDomain") && ownerHash == nameHash)
-
 
 // ---- key tag (RFC 4034 Appendix B) -----------------------------------------------------------------------------
 // ktsum(w, n): the running sum over the first n octets of the DNSKEY RDATA: octets at even positions count
